@@ -544,9 +544,17 @@ mod verif_pdu_layout {
     verif_harness!{ pdu_payload_aspa_announce_roundtrip; |version: u8, customer: u32, two: bool| {
         if two { aspa_roundtrip(version, Action::Announce, customer, &PROV8[..]) } else { aspa_roundtrip(version, Action::Announce, customer, &PROV8[..0]) }
     }}
+    //@harness pdu_payload_aspa_withdraw_empty_roundtrip K fn=Payload::new_if_supported,Payload::new,Payload::to_payload timeout=900
+    verif_harness!{ pdu_payload_aspa_withdraw_empty_roundtrip; |version: u8, customer: u32| {
+        aspa_roundtrip(version, Action::Withdraw, customer, &PROV8[..0]);
+    }}
+    // property statement: "every payload item (.., ASPA) with either action .. read back yields the same item".
+    // FINDING: with action Withdraw and a non-empty provider list, to_payload returns the customer with an
+    // EMPTY provider list (pdu.rs, make_payload, `Action::Withdraw => ProviderAsns::empty()`), although
+    // Payload::new wrote all providers.  This harness states the property as given and fails on "same providers".
     //@harness pdu_payload_aspa_withdraw_roundtrip K fn=Payload::new_if_supported,Payload::new,Payload::to_payload timeout=900
-    verif_harness!{ pdu_payload_aspa_withdraw_roundtrip; |version: u8, customer: u32, two: bool| {
-        if two { aspa_roundtrip(version, Action::Withdraw, customer, &PROV8[..]) } else { aspa_roundtrip(version, Action::Withdraw, customer, &PROV8[..0]) }
+    verif_harness!{ pdu_payload_aspa_withdraw_roundtrip; |version: u8, customer: u32| {
+        aspa_roundtrip(version, Action::Withdraw, customer, &PROV8[..]);
     }}
 
     // ---------------- Error::new: RFC 8210 5.11 layout (bounded sizes: Vec code) ----------------
